@@ -115,9 +115,9 @@ def feasible(mod, fn: ast.AST, node: ast.AST, env: dict[str, Optional[bool]]) ->
 
 
 def isinstance_facts(mod, fn: ast.AST, node: ast.AST) -> list[tuple[str, list[ast.expr], bool]]:
-    """(normalised subject, class expressions, truth) of every isinstance atom that holds at node"""
+    """(normalised subject, class expressions, truth) of every isinstance atom that holds at node (looked up through predicate helpers: facts_at)"""
     out = []
-    for e, truth in atoms(guard_facts(mod, fn, node)):
+    for e, truth in facts_at(mod, fn, node):
         if isinstance(e, ast.Call) and isinstance(e.func, ast.Name) and e.func.id == "isinstance" and len(e.args) == 2:
             cl = e.args[1]
             out.append((norm(e.args[0]), list(cl.elts) if isinstance(cl, ast.Tuple) else [cl], truth))
@@ -125,9 +125,9 @@ def isinstance_facts(mod, fn: ast.AST, node: ast.AST) -> list[tuple[str, list[as
 
 
 def not_none_facts(mod, fn: ast.AST, node: ast.AST) -> set[str]:
-    """normalised expressions known to be `is not None` at node"""
+    """normalised expressions known to be `is not None` at node (looked up through predicate helpers: facts_at)"""
     out = set()
-    for e, truth in atoms(guard_facts(mod, fn, node)):
+    for e, truth in facts_at(mod, fn, node):
         if isinstance(e, ast.Compare) and len(e.ops) == 1 and isinstance(e.comparators[0], ast.Constant) and e.comparators[0].value is None:
             if (isinstance(e.ops[0], ast.Is) and not truth) or (isinstance(e.ops[0], ast.IsNot) and truth):
                 out.add(norm(e.left))
@@ -272,3 +272,623 @@ class DefUse:
             if found and len({r[0] for r in found}) == 1:
                 return found[0]
         return None
+
+
+# ======================================================================================================================
+# helpers of rules t-y (request-level structure: prologue folding, return classes, grammar recursion, constant arguments)
+# ======================================================================================================================
+def self_mutators(mod, cls: str) -> set[str]:
+    """methods of class `cls` (other than __init__) that change the state of self: a store / augmented store / del whose target is an
+    attribute or subscript chain rooted in the first parameter, closed under calls of such methods on self"""
+    meths = mod.methods(cls)
+    out: set[str] = set()
+
+    def root(t: ast.AST) -> Optional[str]:
+        seen_chain = False
+        while isinstance(t, (ast.Attribute, ast.Subscript)):
+            t = t.value
+            seen_chain = True
+        return t.id if seen_chain and isinstance(t, ast.Name) else None
+
+    for name, f in meths.items():
+        if name == "__init__" or not f.args.args:
+            continue
+        me = f.args.args[0].arg
+        for n in own_nodes(f):
+            tgts: list[ast.AST] = []
+            if isinstance(n, ast.Assign):
+                tgts = list(n.targets)
+            elif isinstance(n, (ast.AugAssign, ast.AnnAssign)) and not (isinstance(n, ast.AnnAssign) and n.value is None):
+                tgts = [n.target]
+            elif isinstance(n, ast.Delete):
+                tgts = list(n.targets)
+            flat: list[ast.AST] = []
+            for t in tgts:
+                flat.extend(t.elts if isinstance(t, (ast.Tuple, ast.List)) else [t])
+            if any(root(t) == me for t in flat):
+                out.add(name)
+    changed = True
+    while changed:
+        changed = False
+        for name, f in meths.items():
+            if name in out or name == "__init__" or not f.args.args:
+                continue
+            me = f.args.args[0].arg
+            if any(isinstance(c, ast.Call) and isinstance(c.func, ast.Attribute) and c.func.attr in out and isinstance(c.func.value, ast.Name) and c.func.value.id == me
+                   for c in own_nodes(f)):
+                out.add(name)
+                changed = True
+    return out
+
+
+def param_of_arg(fn: ast.AST, call: ast.Call, arg: ast.AST) -> Optional[str]:
+    """name of the parameter of fn (a plain function) that the argument expression `arg` of `call` is bound to"""
+    params = [a.arg for a in fn.args.posonlyargs + fn.args.args]  # type: ignore[attr-defined]
+    for i, a in enumerate(call.args):
+        if a is arg:
+            return params[i] if i < len(params) and not any(isinstance(x, ast.Starred) for x in call.args[:i + 1]) else None
+    for k in call.keywords:
+        if k.value is arg:
+            return k.arg
+    return None
+
+
+def fold_sites(mod) -> list[tuple[str, ast.AST, ast.AST, ast.Assign, ast.AST, str]]:
+    """(function, its def, loop, statement, callee def, accumulator parameter) for every `X = f(..., X, ...)` in the body of a loop,
+    f a plain function of the module: a fold of the loop's items into X, one step per call"""
+    out = []
+    for q, fn in mod.functions():
+        for loop in [n for n in own_nodes(fn) if isinstance(n, (ast.For, ast.AsyncFor, ast.While))]:
+            for st in [n for s in loop.body for n in ast.walk(s)]:
+                if not (isinstance(st, ast.Assign) and len(st.targets) == 1 and isinstance(st.targets[0], ast.Name) and isinstance(st.value, ast.Call)
+                        and isinstance(st.value.func, ast.Name) and mod.has(st.value.func.id)):
+                    continue
+                callee = mod.defs[st.value.func.id]
+                if not isinstance(callee, ast.FunctionDef):
+                    continue
+                x = st.targets[0].id
+                accs = [a for a in list(st.value.args) + [k.value for k in st.value.keywords] if isinstance(a, ast.Name) and a.id == x]
+                if len(accs) != 1:
+                    continue
+                p = param_of_arg(callee, st.value, accs[0])
+                if p is not None:
+                    out.append((q, fn, loop, st, callee, p))
+    return out
+
+
+def acc_writes(mod, fn: ast.AST, acc: str, mutators: set[str]) -> list[tuple[ast.AST, list[ast.AST]]]:
+    """(statement-level node, value expressions) of every write into the object the local `acc` of fn holds:
+    `acc.attr = v`, `acc[k] = v`, `acc.attr += v`, and `acc.m(args)` for a state-changing method m"""
+    out: list[tuple[ast.AST, list[ast.AST]]] = []
+    for n in own_nodes(fn):
+        if isinstance(n, (ast.Assign, ast.AugAssign, ast.AnnAssign)):
+            tgts = list(n.targets) if isinstance(n, ast.Assign) else [n.target]
+            flat: list[ast.AST] = []
+            for t in tgts:
+                flat.extend(t.elts if isinstance(t, (ast.Tuple, ast.List)) else [t])
+            for t in flat:
+                r = t
+                depth = 0
+                while isinstance(r, (ast.Attribute, ast.Subscript)):
+                    r = r.value
+                    depth += 1
+                if depth and isinstance(r, ast.Name) and r.id == acc and n.value is not None:
+                    out.append((n, [n.value]))
+        elif isinstance(n, ast.Call) and isinstance(n.func, ast.Attribute) and n.func.attr in mutators and isinstance(n.func.value, ast.Name) and n.func.value.id == acc:
+            out.append((n, list(n.args) + [k.value for k in n.keywords]))
+    return out
+
+
+def entry_atoms(cfg: CFG, mod, fn: ast.AST, name: str) -> Optional[dict[str, bool]]:
+    """truth assignment that says `the value of parameter name at entry is not None`, for the `name is None` / `name is not None` atoms of
+    the branch tests of fn - valid only if every test that mentions the name is evaluated before fn re-binds it (else None)"""
+    env: dict[str, bool] = {}
+    for n in own_nodes(fn):
+        if not isinstance(n, (ast.If, ast.While)):
+            continue
+        if name not in _names(n.test):
+            continue
+        if reaching_defs(cfg, cfg.by_ast[id(n)], name, {}) != {cfg.entry}:
+            return None
+        for c in ast.walk(n.test):
+            if isinstance(c, ast.Compare) and len(c.ops) == 1 and isinstance(c.left, ast.Name) and c.left.id == name \
+                    and isinstance(c.comparators[0], ast.Constant) and c.comparators[0].value is None and isinstance(c.ops[0], (ast.Is, ast.IsNot)):
+                env[norm(c)] = isinstance(c.ops[0], ast.IsNot)
+    return env
+
+
+def bound_value(st: ast.AST, name: str) -> Optional[ast.AST]:
+    """the expression a binding statement gives to `name` (through tuple unpacking of a tuple display too), None if it cannot be told"""
+    if isinstance(st, ast.AnnAssign) and isinstance(st.target, ast.Name) and st.target.id == name:
+        return st.value
+    if not isinstance(st, ast.Assign):
+        return None
+    for t in st.targets:
+        if isinstance(t, ast.Name) and t.id == name:
+            return st.value
+        if isinstance(t, (ast.Tuple, ast.List)) and isinstance(st.value, (ast.Tuple, ast.List)) and len(t.elts) == len(st.value.elts):
+            for e, v in zip(t.elts, st.value.elts):
+                if isinstance(e, ast.Name) and e.id == name:
+                    return v
+    return None
+
+
+# ------------------------------------------------------------------------------------------------------------- grammar
+_G_NULLABLE = {"Optional", "Opt", "ZeroOrMore"}
+_G_WRAP = {"Optional", "Opt", "ZeroOrMore", "OneOrMore", "Group", "Suppress", "Combine", "Dict", "DelimitedList", "delimitedList", "delimited_list",
+           "Comp", "Param", "ParamList", "NotAny", "FollowedBy"}
+
+
+class TailGrammar:
+    """which grammar symbols can END a match of a module-level pyparsing definition (`X = e`, `X <<= e`): the last operand of a
+    sequence (and the ones before it as long as what follows can match nothing), every arm of an alternation, the content of a wrapper"""
+
+    def __init__(self, defs: dict[str, list[ast.expr]]):
+        self.defs = {k: [v for v in vs if not (isinstance(v, ast.Call) and isinstance(v.func, ast.Name) and v.func.id == "Forward")] for k, vs in defs.items()}
+        self.forwards = {k for k, vs in defs.items() if any(isinstance(v, ast.Call) and isinstance(v.func, ast.Name) and v.func.id == "Forward" for v in vs)}
+
+    @staticmethod
+    def _callee(e: ast.AST) -> Optional[str]:
+        if isinstance(e, ast.Call):
+            return e.func.id if isinstance(e.func, ast.Name) else e.func.attr if isinstance(e.func, ast.Attribute) else None
+        return None
+
+    def _content(self, e: ast.Call) -> Optional[ast.AST]:
+        c = self._callee(e)
+        if c in ("Comp", "Param", "ParamList"):
+            return e.args[1] if len(e.args) > 1 else None
+        return e.args[0] if e.args else None
+
+    def nullable(self, e: ast.AST, seen: frozenset = frozenset()) -> bool:
+        c = self._callee(e)
+        if c in _G_NULLABLE:
+            return True
+        if isinstance(e, ast.Call) and isinstance(e.func, ast.Name) and c in _G_WRAP:
+            x = self._content(e)
+            return x is not None and self.nullable(x, seen)
+        if isinstance(e, ast.Call) and isinstance(e.func, ast.Attribute):  # x.set_parse_action(...): a decoration of x
+            return self.nullable(e.func.value, seen)
+        if isinstance(e, ast.BinOp):
+            if isinstance(e.op, (ast.Add, ast.Sub, ast.BitAnd)):
+                return self.nullable(e.left, seen) and self.nullable(e.right, seen)
+            if isinstance(e.op, (ast.BitOr, ast.BitXor)):
+                return self.nullable(e.left, seen) or self.nullable(e.right, seen)
+        if isinstance(e, ast.Name) and e.id in self.defs and e.id not in seen:
+            return any(self.nullable(v, seen | {e.id}) for v in self.defs[e.id])
+        return False
+
+    def tails(self, e: ast.AST) -> set[str]:
+        """names of the grammar symbols in tail position of expression e (not followed into their definitions)"""
+        c = self._callee(e)
+        if isinstance(e, ast.Name):
+            return {e.id} if e.id in self.defs or e.id in self.forwards else set()
+        if isinstance(e, ast.Call) and isinstance(e.func, ast.Name) and c in _G_WRAP:
+            x = self._content(e)
+            return self.tails(x) if x is not None else set()
+        if isinstance(e, ast.Call) and isinstance(e.func, ast.Attribute):
+            return self.tails(e.func.value)
+        if isinstance(e, ast.BinOp):
+            if isinstance(e.op, (ast.BitOr, ast.BitXor, ast.BitAnd)):
+                return self.tails(e.left) | self.tails(e.right)
+            if isinstance(e.op, (ast.Add, ast.Sub)):
+                out = self.tails(e.right)
+                if self.nullable(e.right):
+                    out |= self.tails(e.left)
+                return out
+        return set()
+
+    def tail_closure(self, name: str) -> dict[str, str]:
+        """symbol -> the symbol through which it was reached, for every symbol that can end a match of `name`"""
+        via: dict[str, str] = {}
+        work = [name]
+        while work:
+            x = work.pop()
+            for v in self.defs.get(x, []):
+                for y in self.tails(v):
+                    if y not in via:
+                        via[y] = x
+                        work.append(y)
+        return via
+
+    def refs(self, name: str) -> set[str]:
+        """every grammar symbol the definition of `name` mentions, transitively"""
+        seen: set[str] = set()
+        work = [name]
+        while work:
+            x = work.pop()
+            for v in self.defs.get(x, []):
+                for n in ast.walk(v):
+                    if isinstance(n, ast.Name) and (n.id in self.defs or n.id in self.forwards) and n.id not in seen:
+                        seen.add(n.id)
+                        work.append(n.id)
+        return seen
+
+
+# ------------------------------------------------------------------------------------------------- constant arguments
+def constant_arg_env(fn: ast.AST, call: ast.Call, skip_first: bool = False) -> dict[str, Optional[bool]]:
+    """truth values that the call fixes for the parameters of fn: a parameter bound to a literal constant, or left to a literal
+    constant default, has the truth value of that constant (atoms `p`, `p is None`, `p is not None`); anything else is unknown"""
+    params = [a.arg for a in fn.args.posonlyargs + fn.args.args]  # type: ignore[attr-defined]
+    defaults: dict[str, ast.AST] = dict(zip(reversed(params), reversed(fn.args.defaults)))  # type: ignore[attr-defined]
+    for a, d in zip(fn.args.kwonlyargs, fn.args.kw_defaults):  # type: ignore[attr-defined]
+        params.append(a.arg)
+        if d is not None:
+            defaults[a.arg] = d
+    pos = params[1:] if skip_first else params
+    bound: dict[str, ast.AST] = {}
+    if any(isinstance(a, ast.Starred) for a in call.args) or any(k.arg is None for k in call.keywords):
+        return {}
+    for p, a in zip(pos, call.args):
+        bound[p] = a
+    for k in call.keywords:
+        bound[k.arg] = k.value  # type: ignore[index]
+    env: dict[str, Optional[bool]] = {}
+    for p in pos:
+        v = bound.get(p, defaults.get(p))
+        if isinstance(v, ast.Constant):
+            env[p] = bool(v.value)
+            env["%s is None" % p] = v.value is None
+            env["%s is not None" % p] = v.value is not None
+    return env
+
+
+# ======================================================================================================================
+# what a call of a predicate helper tells about its arguments; outcomes of a test on the feasible paths to a node; the value
+# a local holds by position; the self-call graph of a class  (rules a, d, f, j, o, x: the construct a rule looks for may sit behind a
+# private helper, a tuple that is packed and unpacked, or a flag that is tested later)
+# ======================================================================================================================
+import copy as _copy
+
+
+def _plain_params(fn: ast.AST) -> Optional[list[str]]:
+    """names of the parameters of a function that takes positional parameters only (no *args / **kwargs / keyword-only)"""
+    a = fn.args  # type: ignore[attr-defined]
+    if a.vararg or a.kwarg or a.kwonlyargs:
+        return None
+    return [x.arg for x in a.posonlyargs + a.args]
+
+
+def _stable_arg(e: ast.AST) -> bool:
+    """an argument expression that denotes the same value when it is read again: a name or an attribute / constant-subscript chain on one"""
+    while isinstance(e, (ast.Attribute, ast.Subscript)):
+        if isinstance(e, ast.Subscript) and not isinstance(e.slice, ast.Constant):
+            return False
+        e = e.value
+    return isinstance(e, ast.Name)
+
+
+def call_binding(fn: ast.AST, call: ast.Call) -> Optional[dict[str, ast.expr]]:
+    """parameter -> the expression it is bound to by `call`, for a function with positional parameters only.  `f(*T)` with T a name binds
+    the i-th parameter to `T[i]` (the call succeeds only if T has exactly as many items as f has parameters without default)"""
+    params = _plain_params(fn)
+    if params is None or call.keywords and any(k.arg is None for k in call.keywords):
+        return None
+    out: dict[str, ast.expr] = {}
+    if len(call.args) == 1 and isinstance(call.args[0], ast.Starred) and not call.keywords:
+        t = call.args[0].value
+        if not isinstance(t, ast.Name) or fn.args.defaults:  # type: ignore[attr-defined]
+            return None
+        for i, p in enumerate(params):
+            out[p] = ast.copy_location(ast.Subscript(value=ast.Name(id=t.id, ctx=ast.Load()), slice=ast.Constant(value=i), ctx=ast.Load()), call)
+        return out
+    if any(isinstance(a, ast.Starred) for a in call.args) or len(call.args) > len(params):
+        return None
+    for p, a in zip(params, call.args):
+        out[p] = a
+    for k in call.keywords:
+        if k.arg not in params or k.arg in out:
+            return None
+        out[k.arg] = k.value  # type: ignore[index]
+    return out
+
+
+def unpacked_arity(mod, call: ast.Call) -> Optional[int]:
+    """n if `call` is `f(*T)` of a plain function f of the module with exactly n parameters, none with a default: where the call has
+    returned, T is known to have n items"""
+    if not (isinstance(call.func, ast.Name) and len(call.args) == 1 and isinstance(call.args[0], ast.Starred) and not call.keywords):
+        return None
+    fn = mod.defs.get(call.func.id)
+    if not isinstance(fn, ast.FunctionDef) or fn.decorator_list:
+        return None
+    params = _plain_params(fn)
+    if params is None or fn.args.defaults:
+        return None
+    return len(params)
+
+
+class _Subst(ast.NodeTransformer):
+    def __init__(self, binding: dict[str, ast.expr]):
+        self.binding = binding
+
+    def visit_Name(self, node: ast.Name):  # noqa: N802
+        if node.id in self.binding and isinstance(node.ctx, ast.Load):
+            return _copy.deepcopy(self.binding[node.id])
+        return node
+
+
+def predicate_facts(mod, call: ast.Call, truth: bool, depth: int = 0) -> list[tuple[ast.expr, bool]]:
+    """what is known about the ARGUMENTS of `call` where the call has returned a value of the given truth: `call` calls a plain function
+    P of the module (found by the name the call uses, not by what it is called) that never re-binds its parameters.  Every `return` of P that
+    can hand out such a value is looked at: the conditions that hold there (guard_facts: enclosing tests, early exits before it) and the
+    returned expression itself; a condition counts only if it holds at every such return.  The conditions are rewritten from P's parameters to
+    the argument expressions of the call; one that mentions a parameter bound to an argument that is not a plain name / attribute chain, or a
+    local of P, is dropped."""
+    if not isinstance(call.func, ast.Name) or depth > 2:
+        return []
+    fn = mod.defs.get(call.func.id)
+    if not isinstance(fn, ast.FunctionDef) or fn.decorator_list:
+        return []
+    binding = call_binding(fn, call)
+    if binding is None:
+        return []
+    params = set(binding)
+    all_params = set(_plain_params(fn) or [])
+    stored = _stores(fn.body)
+    if stored & all_params:
+        return []
+    if any(isinstance(n, (ast.Yield, ast.YieldFrom, ast.Await)) for n in own_nodes(fn)):
+        return []
+    rets = [r for r in own_nodes(fn) if isinstance(r, ast.Return)]
+    if not rets:
+        return []
+    if not truth:
+        cfg = CFG(fn)
+        if any(not isinstance(cfg.nodes[p].ast, ast.Return) for p in cfg.pred[cfg.exit]):
+            return []  # P can fall off its end: a false result (None) about which no `return` says anything
+    per_return: list[dict[tuple[str, bool], ast.expr]] = []
+    for r in rets:
+        v = r.value
+        if v is None or isinstance(v, ast.Constant):
+            if bool(v.value if v is not None else None) != truth:
+                continue  # this return never hands out a value of that truth
+            here: list[tuple[ast.expr, bool]] = []
+        else:
+            here = [(v, truth)]
+        here += guard_facts(mod, fn, r)
+        flat = list(expand(mod, atoms(here), depth + 1))
+        per_return.append({(norm(e), t): e for e, t in flat})
+    if not per_return:
+        return []
+    common = set(per_return[0])
+    for d in per_return[1:]:
+        common &= set(d)
+    out: list[tuple[ast.expr, bool]] = []
+    usable = {p: a for p, a in binding.items() if _stable_arg(a)}
+    for key in sorted(common):
+        e = per_return[0][key]
+        free = _names(e) & (stored | all_params)
+        if not free <= set(usable):
+            continue
+        out.append((ast.fix_missing_locations(_Subst(usable).visit(_copy.deepcopy(e))), key[1]))
+    return out
+
+
+def expand(mod, facts, depth: int = 0) -> Iterator[tuple[ast.expr, bool]]:
+    """the atoms of `facts`, and behind every atom that is a call of a predicate helper of the module what that call tells about its arguments"""
+    for e, truth in atoms(list(facts)):
+        yield e, truth
+        if isinstance(e, ast.Call) and isinstance(e.func, ast.Name) and mod.has(e.func.id):
+            yield from atoms(predicate_facts(mod, e, truth, depth))
+
+
+def facts_at(mod, fn: ast.AST, node: ast.AST) -> list[tuple[ast.expr, bool]]:
+    """atomic conditions (expression, truth) that hold whenever `node` is evaluated inside fn, looked up through predicate helpers"""
+    return list(expand(mod, guard_facts(mod, fn, node)))
+
+
+def components(mod, fn: ast.AST, value: ast.AST, at: ast.AST, n: int) -> Optional[list[str]]:
+    """normalised texts of the n components of a value that is handed out at node `at`: the elements of a tuple display, or `T[0]` .. `T[n-1]`
+    for a name T that is known to have n items there (a call `f(*T)` of an n-parameter function has returned on the way)"""
+    if isinstance(value, ast.Tuple) and len(value.elts) == n and not any(isinstance(e, ast.Starred) for e in value.elts):
+        return [norm(e) for e in value.elts]
+    if isinstance(value, ast.Name):
+        for c, _truth in atoms(guard_facts(mod, fn, at)):  # (an atom: the call was evaluated, whatever it returned; inside an undecided `and` / `or` it need not have been)
+            if isinstance(c, ast.Call) and unpacked_arity(mod, c) == n and c.args[0].value.id == value.id:  # type: ignore[attr-defined]
+                return [norm(ast.Subscript(value=ast.Name(id=value.id, ctx=ast.Load()), slice=ast.Constant(value=i), ctx=ast.Load())) for i in range(n)]
+    return None
+
+
+# ----------------------------------------------------------------------------------------------- outcomes of a test on the paths to a node
+def null_flags(fn: ast.AST) -> set[str]:
+    """locals of fn (not parameters) whose every binding is `name = None` or `name = <a display or a constant>`: whether such a name is None (and,
+    for a display or constant, whether it is true) is state that is tracked exactly along a path"""
+    good: dict[str, int] = {}
+    total: dict[str, int] = {}
+    for n in ast.walk(fn):
+        if isinstance(n, ast.Name) and isinstance(n.ctx, (ast.Store, ast.Del)):
+            total[n.id] = total.get(n.id, 0) + 1
+        if isinstance(n, ast.Assign) and len(n.targets) == 1 and isinstance(n.targets[0], ast.Name) and _value_kind(n.value) is not None:
+            good[n.targets[0].id] = good.get(n.targets[0].id, 0) + 1
+    args = {a.arg for a in ast.walk(fn) if isinstance(a, ast.arg)}
+    return {k for k, c in good.items() if c == total.get(k) and k not in args}
+
+
+def _value_kind(v: ast.AST) -> Optional[str]:
+    """'none': the expression is None; 'true' / 'false': it is not None and has that truth value (a constant, a display with / without items);
+    'object': it is not None (a comprehension); None: unknown"""
+    if isinstance(v, ast.Constant):
+        return "none" if v.value is None else ("true" if v.value else "false")
+    if isinstance(v, (ast.Tuple, ast.List, ast.Set)):
+        if any(isinstance(e, ast.Starred) for e in v.elts):
+            return "object"
+        return "true" if v.elts else "false"
+    if isinstance(v, ast.Dict):
+        return "object" if any(k is None for k in v.keys) else ("true" if v.keys else "false")
+    if isinstance(v, (ast.ListComp, ast.DictComp, ast.SetComp, ast.JoinedStr)):
+        return "object"
+    return None
+
+
+def test_outcomes(g: CFG, tests: dict[int, bool], target: int) -> set[str]:
+    """with which outcome of the tests was the target reached?  `tests` maps CFG test nodes to the polarity of their condition (False: the
+    condition is the negation of the fact of interest).  Every feasible path entry -> target is followed; the answer holds, for each of them, the
+    outcome of the LAST of the tests evaluated on it ('holds' / 'fails'), or 'untested'.  Feasibility: the state of the null_flags locals is
+    tracked exactly and decides the `x is None` / `x is not None` / `x` atoms of the branch conditions on the way (three-valued, as reaching_defs)."""
+    flags = sorted(null_flags(g.fn))
+    fidx = {f: i for i, f in enumerate(flags)}
+    start = (g.entry, tuple([None] * len(flags)), "untested")
+    seen = {start}
+    stack = [start]
+    out: set[str] = set()
+    while stack:
+        nid, fl, last = stack.pop()
+        if nid == target:
+            out.add(last)
+        node = g.nodes[nid]
+        st = node.ast
+        nfl = fl
+        if st is not None and node.kind != "test":
+            for f in _assigned_of(st) & set(flags):
+                l = list(nfl)
+                l[fidx[f]] = _value_kind(st.value) if isinstance(st, ast.Assign) else None  # type: ignore[attr-defined]
+                nfl = tuple(l)
+        verdict = None
+        if node.kind == "test" and st is not None:
+            env: dict[str, Optional[bool]] = {}
+            for f, v in zip(flags, nfl):
+                if v is not None:
+                    env["%s is None" % f] = v == "none"
+                    env["%s is not None" % f] = v != "none"
+                    if v != "object":
+                        env[f] = v == "true"
+            verdict = eval3(st.test, env)  # type: ignore[attr-defined]
+        for m in g.succ[nid]:
+            lab = g.edge_label.get((nid, m), "")
+            if lab == "exc":
+                continue
+            nlast = last
+            if node.kind == "test":
+                is_true_edge = lab == "true"
+                if verdict is True and not is_true_edge:
+                    continue
+                if verdict is False and is_true_edge:
+                    continue
+                if nid in tests:
+                    nlast = "holds" if is_true_edge == tests[nid] else "fails"
+            s2 = (m, nfl, nlast)
+            if s2 not in seen:
+                seen.add(s2)
+                stack.append(s2)
+    return out
+
+
+def _assigned_of(st: ast.AST) -> set[str]:
+    from .cfg import _assigned_names
+    return _assigned_names(st)
+
+
+# ------------------------------------------------------------------------------------------------------ the value a local holds, by position
+def held_values(g: CFG, at: int, name: str, depth: int = 0, through_augmented: bool = False) -> Optional[list[tuple[ast.AST, int]]]:
+    """(expression, CFG node where it was evaluated) for every value the local `name` can hold when node `at` is reached: the right-hand side of
+    the bindings that reach it, followed through copies of other locals (`a = b`), through tuples that are packed and unpacked again
+    (`p = (x, y)` .. `a, b = p`) and past `= None` (unpacking None raises: no value comes from there when the name is unpacked).  None when a
+    binding is of another kind (a loop variable, an augmented assignment, the value at entry).  through_augmented: `x += ..` leaves in x the
+    object it held (true of the containers that are updated in place: the question asked is WHICH object, not what is in it)."""
+    if depth > 6:
+        return None
+    out: list[tuple[ast.AST, int]] = []
+    for d in reaching_defs(g, at, name, {}):
+        if d == g.entry:
+            return None
+        st = g.nodes[d].ast
+        if through_augmented and isinstance(st, ast.AugAssign) and isinstance(st.target, ast.Name) and st.target.id == name:
+            sub = held_values(g, d, name, depth + 1, through_augmented)
+            if sub is None:
+                return None
+            out.extend(sub)
+            continue
+        vals = _bound_exprs(g, d, st, name, depth, through_augmented)
+        if vals is None:
+            return None
+        for v, where in vals:
+            if isinstance(v, ast.Name):
+                sub = held_values(g, where, v.id, depth + 1, through_augmented)
+                if sub is None:
+                    out.append((v, where))  # a parameter, a loop variable: the name itself is all that is known
+                else:
+                    out.extend(sub)
+            else:
+                out.append((v, where))
+    return out
+
+
+def _bound_exprs(g: CFG, d: int, st: ast.AST, name: str, depth: int, through_augmented: bool = False) -> Optional[list[tuple[ast.AST, int]]]:
+    if isinstance(st, ast.AnnAssign) and isinstance(st.target, ast.Name) and st.target.id == name and st.value is not None:
+        return [(st.value, d)]
+    if not isinstance(st, ast.Assign):
+        return None
+    out: list[tuple[ast.AST, int]] = []
+    for t in st.targets:
+        if isinstance(t, ast.Name) and t.id == name:
+            out.append((st.value, d))
+        elif isinstance(t, (ast.Tuple, ast.List)) and name in _names(t):
+            idx = [i for i, e in enumerate(t.elts) if isinstance(e, ast.Name) and e.id == name]
+            if len(idx) != 1 or any(isinstance(e, ast.Starred) for e in t.elts):
+                return None
+            srcs: list[tuple[ast.AST, int]] = [(st.value, d)]
+            if isinstance(st.value, ast.Name):
+                hv = held_values(g, d, st.value.id, depth + 1, through_augmented)
+                if hv is None:
+                    return None
+                srcs = hv
+            for v, where in srcs:
+                if isinstance(v, ast.Constant) and v.value is None:
+                    continue
+                if isinstance(v, (ast.Tuple, ast.List)) and len(v.elts) == len(t.elts) and not any(isinstance(e, ast.Starred) for e in v.elts):
+                    out.append((v.elts[idx[0]], where))
+                else:
+                    return None
+    return out or None
+
+
+# ------------------------------------------------------------------------------------------------------------ self-call graph of a class
+def self_calls(fn: ast.AST, methods: dict[str, ast.FunctionDef]) -> list[tuple[ast.Call, str]]:
+    """calls, in the body of method fn (nested defs included), of a method of its own class through the first parameter (`self.m(..)`, `cls.m(..)`)"""
+    if not fn.args.args:  # type: ignore[attr-defined]
+        return []
+    me = fn.args.args[0].arg  # type: ignore[attr-defined]
+    return [(c, c.func.attr) for c in own_nodes(fn, include_nested=True)
+            if isinstance(c, ast.Call) and isinstance(c.func, ast.Attribute) and c.func.attr in methods and isinstance(c.func.value, ast.Name) and c.func.value.id == me]
+
+
+def reaching_methods(methods: dict[str, ast.FunctionDef], direct: set[str]) -> set[str]:
+    """`direct` closed under: a method that calls, through self, a method of the set"""
+    out = set(direct)
+    changed = True
+    while changed:
+        changed = False
+        for name, f in methods.items():
+            if name not in out and any(m in out for _c, m in self_calls(f, methods)):
+                out.add(name)
+                changed = True
+    return out
+
+
+def is_static(fn: ast.AST) -> bool:
+    return any(isinstance(d, ast.Name) and d.id == "staticmethod" for d in getattr(fn, "decorator_list", []))
+
+
+def passed_env(caller: ast.AST, env: dict[str, Optional[bool]], callee: ast.AST, call: ast.Call, skip_first: bool) -> dict[str, Optional[bool]]:
+    """truth values a call fixes for the parameters of callee: those of constant_arg_env (literal arguments and defaults), and for a parameter
+    bound to a parameter of the caller that the caller never re-binds, what `env` knows about that one"""
+    out = constant_arg_env(callee, call, skip_first=skip_first)
+    params = [a.arg for a in callee.args.posonlyargs + callee.args.args]  # type: ignore[attr-defined]
+    pos = params[1:] if skip_first else params
+    if any(isinstance(a, ast.Starred) for a in call.args) or any(k.arg is None for k in call.keywords):
+        return out
+    bound: dict[str, ast.AST] = dict(zip(pos, call.args))
+    for k in call.keywords:
+        bound[k.arg] = k.value  # type: ignore[index]
+    rebound = _stores(caller.body)  # type: ignore[attr-defined]
+    for p, a in bound.items():
+        if isinstance(a, ast.Name) and a.id not in rebound:
+            for suffix in ("", " is None", " is not None"):
+                if a.id + suffix in env:
+                    out[p + suffix] = env[a.id + suffix]
+    return out
+
+
+def entry_env(fn: ast.AST, env: dict[str, Optional[bool]]) -> dict[str, Optional[bool]]:
+    """env without what it says about parameters that fn re-binds: a branch test that mentions such a one need not see the value at entry"""
+    rebound = _stores(fn.body)  # type: ignore[attr-defined]
+    return {k: v for k, v in env.items() if k.split(" ")[0] not in rebound}
